@@ -121,3 +121,16 @@ Proof. intros A n b c H. rewrite skipn_app. replace (n - length b)%nat with O by
 
 Lemma firstn_app_le : forall (A : Type) n (b c : list A), (n <= length b)%nat -> firstn n (b ++ c) = firstn n b.
 Proof. intros A n b c H. rewrite firstn_app. replace (n - length b)%nat with O by lia. simpl. apply app_nil_r. Qed.
+
+Lemma bytes_ok_firstn : forall n l, bytes_ok l -> bytes_ok (firstn n l).
+Proof.
+  induction n as [|n IH]; intros l H; [constructor|]. destruct l as [|x l]; [constructor|].
+  inversion H; subst. cbn [firstn]. constructor; [assumption | apply IH; assumption].
+Qed.
+Lemma bytes_ok_skipn : forall n l, bytes_ok l -> bytes_ok (skipn n l).
+Proof.
+  induction n as [|n IH]; intros l H; [exact H|]. destruct l as [|x l]; [constructor|].
+  inversion H; subst. cbn [skipn]. apply IH; assumption.
+Qed.
+Lemma bytes_ok_app_iff : forall a b, bytes_ok (a ++ b) <-> bytes_ok a /\ bytes_ok b.
+Proof. intros. unfold bytes_ok. apply Forall_app. Qed.
